@@ -275,8 +275,23 @@ def unit_ods_audit():
                     if sheets is not None and len(sheets) == 1:
                         try: list(rowio.ods_rows(path, 2)); return {"expected": "DataFormatError for sheet 2 of a one-sheet document", "observed": "rows returned"}
                         except errors.DataFormatError: pass
+                        except Exception as e: return {"expected": "DataFormatError for sheet 2 of a one-sheet document", "observed": repr(e)}
                 os.unlink(path); return None
             res.append(sweep("C15/audit/the same path read again after its content was replaced", [0], replaced_check, "audit", "one path rewritten 4 times (2 documents, a non-zip file, a third document)", function="rowio.ods_rows", unit="C15.audit", props=["C15", "C08"]))
+            # through the validating reader: the Sheet property of an ODS CID selects the sheet, a missing sheet is a data-format error
+            def reader_sheet_check(k):
+                from cutplace import interface, validio
+                sheets = [[["first", "1"]], [["second", "2"], ["zwei", "2"]], [["third", "3"]]]
+                n[0] += 1; path = os.path.join(tmp, "r%d.ods" % n[0]); write_ods(path, encode_ods(sheets, set()))
+                cid = interface.Cid(); cid.read("cid", [["d", "format", "ods"], ["d", "sheet", str(k)], ["f", "name"], ["f", "number"]])
+                try: got = list(validio.rows(cid, path)); err = None
+                except errors.DataFormatError as e: got = None; err = e
+                except Exception as e: return {"expected": "rows or DataFormatError", "observed": repr(e)}
+                finally: os.unlink(path)
+                if k <= 3: return None if got == sheets[k - 1] else {"expected": "Reader with Sheet %d returns %r" % (k, sheets[k - 1]), "observed": got if err is None else repr(err)}
+                return None if err is not None else {"expected": "DataFormatError: sheet %d of 3 does not exist" % k, "observed": got}
+            res.append(sweep("C15/audit/the Sheet property of an ODS CID selects the sheet the validating reader reads", [1, 2, 3, 4], reader_sheet_check, "audit", "a 3-sheet document x Sheet 1..4 through validio.rows",
+                             describe=lambda k: {"sheet": k}, function="validio.Reader._raw_rows + rowio.ods_rows", unit="C15.audit", props=["C15"]))
             # rich encodings (recorded finding K-4): counted, reported once
             bad = []
             for c in cases(RICH_FEATURES, False):
